@@ -11,6 +11,7 @@ import (
 	"testing"
 	"time"
 
+	"github.com/mdlayher/corerad/internal/netstate"
 	"github.com/mdlayher/corerad/verifrt/enum"
 	"github.com/mdlayher/corerad/verifrt/ev"
 	"github.com/mdlayher/corerad/verifrt/vsched"
@@ -28,6 +29,7 @@ var c06Gaps = []time.Duration{0, 100 * time.Millisecond, time.Second, 2900 * tim
 
 type c06Event struct {
 	Multicast bool          `json:"multicast_trigger"`
+	Reinit    bool          `json:"link_change_reinit,omitempty"`
 	Gap       time.Duration `json:"gap"`
 }
 
@@ -43,7 +45,7 @@ func c06Scenario(c c06Case, keep **advWorld) *vsched.Scenario {
 		Name:    "c06",
 		Horizon: 10 * time.Minute,
 		Setup: func(x *vsched.Exec) {
-			a := newAdvWorld(staticCfg("eth0", c06Interval, c06Interval), true, false)
+			a := newAdvWorld(staticCfg("eth0", c06Interval, c06Interval), true, true)
 			*keep = a
 			x.Spawn("advertiser", a.run)
 			x.Spawn("driver", func() {
@@ -52,9 +54,13 @@ func c06Scenario(c c06Case, keep **advWorld) *vsched.Scenario {
 				for _, e := range c.Events {
 					vsched.Sleep(e.Gap)
 					at += e.Gap
-					if e.Multicast {
+					switch {
+					case e.Reinit:
+						vsched.Obs("link-change", "")
+						vsched.Send("harness:link-change", a.watchC, netstate.LinkDown)
+					case e.Multicast:
 						a.inject(rsFrom("::", false))
-					} else {
+					default:
 						a.inject(rsFrom("fe80::5", true))
 					}
 				}
@@ -87,45 +93,79 @@ func c06Check(c c06Case, x *vsched.Exec, a *advWorld) (out [][2]string) {
 		bad("C06:harness", "driver never stopped the advertiser")
 		return out
 	}
-	// Multicast transmissions before the stop (the single final RA is exempt).
-	var mc []time.Duration
-	for _, w := range a.Writes() {
-		if isAllNodes(w.Dst) && w.T <= stop && !(w.RA != nil && w.RA.RouterLifetime == 0 && w.T == stop) {
-			mc = append(mc, w.T)
+	// Generations: one per connection (initial dial and every re-initialisation).
+	type gen struct {
+		open, end time.Duration
+		mc        []time.Duration
+	}
+	var gens []*gen
+	for _, e := range x.Log {
+		if e.Kind == "conn-open" {
+			if len(gens) > 0 {
+				gens[len(gens)-1].end = e.T
+			}
+			gens = append(gens, &gen{open: e.T, end: stop})
 		}
 	}
-	if len(mc) == 0 || mc[0] != 0 {
-		bad("C06:no-initial-ra", "multicast RAs at %v", mc)
+	if len(gens) == 0 {
+		bad("C06:harness", "no connection was opened")
 		return out
 	}
-	for i := 1; i < len(mc); i++ {
-		if d := mc[i] - mc[i-1]; d < 3*time.Second {
-			bad("C06:spacing", "multicast RAs at %s and %s are %s apart (< 3s); all multicast RAs: %v", mc[i-1], mc[i], d, mc)
-			break
+	// Multicast transmissions before the stop (the single final RA is exempt), per generation.
+	for _, w := range a.Writes() {
+		if isAllNodes(w.Dst) && w.T <= stop && !(w.RA != nil && w.RA.RouterLifetime == 0 && w.T == stop) && w.Conn < len(gens) {
+			gens[w.Conn].mc = append(gens[w.Conn].mc, w.T)
 		}
 	}
-	// Triggers: periodic ticks of the real loop (every 4 s from the start) and solicitations from ::.
+	var mc []time.Duration
+	for gi, g := range gens {
+		mc = append(mc, g.mc...)
+		if len(g.mc) == 0 || g.mc[0] != g.open {
+			bad("C06:no-initial-ra", "generation %d (opened at %s): multicast RAs at %v", gi, g.open, g.mc)
+			return out
+		}
+		for i := 1; i < len(g.mc); i++ {
+			if d := g.mc[i] - g.mc[i-1]; d < 3*time.Second {
+				sig := "C06:spacing"
+				if gi > 0 {
+					sig = "C06:spacing-after-reinit"
+				}
+				bad(sig, "generation %d (opened at %s): multicast RAs at %s and %s are %s apart (< 3s); all: %v", gi, g.open, g.mc[i-1], g.mc[i], d, g.mc)
+				break
+			}
+		}
+	}
+	// Triggers: periodic ticks of each generation's loop (every 4 s from its start) and solicitations from ::.
 	type trig struct {
 		t    time.Duration
 		kind string
 	}
 	var trigs []trig
-	for t := time.Duration(0); t+3*time.Second < stop; t += c06Interval {
-		trigs = append(trigs, trig{t, "periodic"})
+	for _, g := range gens {
+		for t := g.open; t+3*time.Second < g.end; t += c06Interval {
+			trigs = append(trigs, trig{t, "periodic"})
+		}
 	}
 	var at time.Duration
 	for _, e := range c.Events {
 		at += e.Gap
-		if e.Multicast {
+		if e.Multicast && !e.Reinit {
 			trigs = append(trigs, trig{at, "solicitation-from-::"})
 		}
 	}
 	for _, tr := range trigs {
-		if tr.t+3*time.Second >= stop {
+		// The generation serving this trigger must last 3 more seconds for the bound to apply.
+		var g *gen
+		for _, h := range gens {
+			if tr.t >= h.open && tr.t < h.end {
+				g = h
+			}
+		}
+		if g == nil || tr.t+3*time.Second >= g.end {
 			continue
 		}
 		ok := false
-		for _, m := range mc {
+		for _, m := range g.mc {
 			if m >= tr.t && m <= tr.t+3*time.Second {
 				ok = true
 			}
@@ -148,7 +188,7 @@ func c06Check(c c06Case, x *vsched.Exec, a *advWorld) (out [][2]string) {
 			gotU++
 		}
 	}
-	if gotU != nu {
+	if gotU != nu && len(gens) == 1 {
 		bad("C06:unicast-count", "%d unicast solicitations, %d unicast RAs", nu, gotU)
 	}
 	return out
@@ -167,6 +207,9 @@ func (c c06Case) String() string {
 		if e.Multicast {
 			k = "M"
 		}
+		if e.Reinit {
+			k = "R"
+		}
 		s = append(s, fmt.Sprintf("%s+%s", k, e.Gap))
 	}
 	return strings.Join(s, " ")
@@ -175,7 +218,7 @@ func (c c06Case) String() string {
 func TestVerifC06(t *testing.T) {
 	r := ev.Begin("C06", "histories")
 	defer r.End(t)
-	r.Rule = "histories = all sequences of <=K events, event = (solicitation from :: | unicast solicitation) x gap to the previous event in {0, 100ms, 1s, 2.9s, 3s-1ns, 3s, 3.1s, 6s}, injected into the real Advertiser (min=max=4s, so periodic ticks at 0,4,8,... interleave) under the virtual clock in the canonical schedule; oracle on virtual WriteTo timestamps to ff02::1: consecutive >= 3s apart, every trigger (tick or :: solicitation) served within 3s, unicast answers conserved; states = histories executed, transitions = scheduler steps; non-trivial = history has >=1 event; distinct = distinct history"
+	r.Rule = "histories = all sequences of <=K events, event = (solicitation from :: | unicast solicitation) x gap to the previous event in {0, 100ms, 1s, 2.9s, 3s-1ns, 3s, 3.1s, 6s}, or a link-state change (tear-down and re-initialisation) x gap {100ms, 1s, 3.1s, 6s}, injected into the real Advertiser (min=max=4s, so periodic ticks at 0,4,8,... interleave) under the virtual clock in the canonical schedule; oracle on virtual WriteTo timestamps to ff02::1, per connection generation from its initial RA: consecutive >= 3s apart, every trigger (tick or :: solicitation) served within 3s, unicast answers conserved; states = histories executed, transitions = scheduler steps; non-trivial = history has >=1 event; distinct = distinct history"
 	r.Assumptions = []string{"canonical schedule per history (goroutine interleavings are C07/C08's subject)", "random delay draws at their default (0) answer"}
 	if r.Replay != nil {
 		var c c06Case
@@ -200,7 +243,7 @@ func TestVerifC06(t *testing.T) {
 	}
 	// Determinism of the machinery: one history twice.
 	{
-		c := c06Case{Events: []c06Event{{true, 2900 * time.Millisecond}, {false, 100 * time.Millisecond}, {true, time.Second}}}
+		c := c06Case{Events: []c06Event{{Multicast: true, Gap: 2900 * time.Millisecond}, {Gap: 100 * time.Millisecond}, {Multicast: true, Gap: time.Second}}}
 		x1, _, _ := c06Run(t, c)
 		x2, _, _ := c06Run(t, c)
 		if x1.Outcome() != x2.Outcome() {
@@ -208,7 +251,9 @@ func TestVerifC06(t *testing.T) {
 			return
 		}
 	}
-	n := len(c06Gaps) * 2
+	// Alphabet: (M|U) x 8 gaps, plus link-change re-initialisation x 4 gaps.
+	reinitGaps := []time.Duration{100 * time.Millisecond, time.Second, 3100 * time.Millisecond, 6 * time.Second}
+	n := len(c06Gaps)*2 + len(reinitGaps)
 	idx := 0
 	enum.Sequences(n, K, func(seq []int) bool {
 		idx++
@@ -221,6 +266,10 @@ func TestVerifC06(t *testing.T) {
 		}
 		var c c06Case
 		for _, s := range seq {
+			if s >= len(c06Gaps)*2 {
+				c.Events = append(c.Events, c06Event{Reinit: true, Gap: reinitGaps[s-len(c06Gaps)*2]})
+				continue
+			}
 			c.Events = append(c.Events, c06Event{Multicast: s%2 == 0, Gap: c06Gaps[s/2]})
 		}
 		x, _, vs := c06Run(t, c)
